@@ -135,8 +135,13 @@ P = {
          '(asymmetry => the bubble sort terminates sorted); transitivity at the exact instance through the key and for left events at one '
          'point with non-collinear later partners (orientation is transitive inside a half-plane); and the third clause at the exact '
          'instance: for a non-vertical earlier segment and a non-crossing, non-collinear pair the answer of compare_segments IS the '
-         'vertical order at every common abscissa, for both argument orders (C15_segment_order_is_vertical_order). Chains through '
-         'collinear partners and the vertical-order clause for a vertical earlier segment (N4) are NOT proved: they are '
+         'vertical order at every common abscissa, for both argument orders (C15_segment_order_is_vertical_order), and = the order of '
+         'heights wherever they differ (C15_segment_order_is_height_order). FIRST CLAUSE IN FULL at the exact instance: on the events of a '
+         'valid input (finite operands, no two edges of one operand overlapping) in the store the sweep returns the event order is a strict '
+         'total order - irreflexive, never Equal and antisymmetric for distinct events (the gap cannot occur), transitive also through '
+         'collinear partners and right events (C15_event_order_strict_total_on_valid_input; hypotheses shown satisfiable on the F2 witness); '
+         'the segment order is antisymmetric there (C15_segment_order_antisymmetric_on_valid_input). Transitivity of the SEGMENT order '
+         'beyond general position and the vertical-order clause for a vertical earlier segment (N4) are NOT proved: they are '
          'checked exhaustively on all lattice segment pairs, on float pairs in both precisions against both bit-exact models (signed '
          'zeros, nearly collinear points with adversarially wrong plain determinants) and on the event sets of generated inputs.', '§7 C15',
          'Coq: order theorems; exhaustive lattice correspondence; all-pairs/all-triples checks'),
@@ -147,6 +152,10 @@ P = {
          'point, the common point returned (C16_new_events_at_one_point; the one-ulp bump is the identity over exact arithmetic). The '
          'kernel is independent of the order of two non-parallel segments (C16_order_independent_none/_point); every event the step creates, '
          'in every arm, lies on BOTH segments - in the overlap arm at an end of the common part (C16_new_events_lie_on_both_segments). The '
+         'step RESOLVES its pair (all arms): a reported point is the ONLY common point (C16_reported_point_is_the_only_common_point); '
+         'afterwards the sub-segments still starting at the two left events have no common point other than end points of both '
+         '(C16_crossing_is_resolved), for overlapping segments of different operands they meet at end points or coincide completely '
+         '(C16_overlap_is_resolved). The '
          'typing of the coincident pieces is NOT proved. possible_intersection is tied to the '
          'model exhaustively on the lattice (43 200 configurations) and on float pairs; all clauses checked against exact rational '
          'geometry. The one-ulp bump (N2) is a known finding on floats.', '§7 C16',
@@ -202,7 +211,7 @@ def main():
         'checks': checks,
         'not_applicable': [],
         'notes': 'Every property is claimed. See DESIGN.md §7 and §14 for what is a theorem and what is decided per run; known_findings.json for '
-                 'N1-N6 and the three fix: commits (F1, F2, S1); seeded/ for 36 independently written breaking changes and which checks catch them.',
+                 'N1-N6 and the three fix: commits (F1, F2, S1); seeded/ for 72 independently written breaking changes and which checks catch them.',
     }
     with open(os.path.join(ROOT, 'MANIFEST.json'), 'w') as f:
         json.dump(m, f, indent=1)
